@@ -376,3 +376,7 @@ func lemmaOriginRoundTrip(p []byte) ([]byte, int) {
 //@   prop C07
 //@ func AsDate(s string) (d Date, err error)
 //@   prop C07
+//@ func featureKeylineParser$1(state *pars.State, result *pars.Result) (err error)
+//@   prop C07
+//@   requires !isnil(state) && !isnil(result)
+//@   loop 1: decreases depth - i
